@@ -111,8 +111,13 @@ Section C01.
     unfold set_q. cbn [r_q]. apply enqueue_ok; [now apply ingest_items_ok | exact Hq].
   Qed.
 
-  Lemma set_online_q b r : r_q (set_online b r) = r_q r.
-  Proof. unfold set_online. destruct (b && negb (r_open r)); reflexivity. Qed.
+  Lemma set_online_false_q r : r_q (set_online false r) = r_q r.
+  Proof. reflexivity. Qed.
+  Lemma set_online_qok b r : q_ok (r_q r) -> q_ok (r_q (set_online b r)).
+  Proof.
+    intro H. unfold set_online. destruct (b && negb (r_open r)); [|exact H].
+    simpl. split; [constructor | exact I].
+  Qed.
 
   Lemma record_remote_q r p a : r_q (record_remote r p a) = r_q r.
   Proof. unfold record_remote. destruct (did_follow a); reflexivity. Qed.
@@ -202,12 +207,12 @@ Section C01.
       assert (Hfold : forall r0, q_ok (r_q r0) ->
                 q_ok (r_q (fold_left (fun r rp => ingest (rs_md rp) (m_blocks m) r) rs r0))).
       { induction rs as [|rp rs IH]; intros r0 H0; simpl; [exact H0|]. apply IH. now apply ingest_ok. }
-      destruct (existsb _ rs); [rewrite set_online_q|]; apply Hfold; exact Hq.
+      destruct (existsb _ rs); [rewrite set_online_false_q|]; apply Hfold; exact Hq.
     - set (rs := filter (for_us m) (m_resps m)).
       assert (Hfold : forall r0, q_ok (r_q r0) ->
                 q_ok (r_q (fold_left (fun r rp => ingest (rs_md rp) (m_blocks m) r) rs r0))).
       { induction rs as [|rp rs IH]; intros r0 H0; simpl; [exact H0|]. apply IH. now apply ingest_ok. }
-      destruct (existsb _ rs); [rewrite set_online_q|]; apply Hfold; exact Hq.
+      destruct (existsb _ rs); [rewrite set_online_false_q|]; apply Hfold; exact Hq.
     - constructor; [exact I | exact Hl].
   Qed.
 
@@ -264,7 +269,7 @@ Section C01.
   Lemma go_online_inv x : inv x -> inv (go_online responder dnsfb x).
   Proof.
     intros (Hs & Hq & Hf & Hl). unfold go_online. mkinv.
-    - rewrite set_online_q. exact Hq.
+    - apply set_online_qok. exact Hq.
     - apply Forall_app. split; [exact Hf | apply responder_ok].
     - constructor; [exact I | exact Hl].
   Qed.
@@ -336,7 +341,7 @@ Section C01.
       destruct e; try (split; assumption).
       destruct (x_sent x1); [split; assumption|].
       destruct (x_cancelled x1).
-      - split; [|exact I]. destruct H1 as (Hs & Hq & Hf & Hl). mkinv. rewrite !set_online_q. exact Hq.
+      - split; [|exact I]. destruct H1 as (Hs & Hq & Hf & Hl). mkinv. apply set_online_qok. apply set_online_qok. exact Hq.
       - destruct (retry_call below (go_online responder dnsfb x1)) as [x2 o2] eqn:E2.
         destruct (retry_call_inv _ _ _ (go_online_inv _ H1) E2) as [Hi Hr]. split; [exact Hi|]. simpl.
         destruct (load_call_last _ _ _ _ _ E1) as (a & Ha & Hc).
